@@ -118,6 +118,9 @@ def history3_sizes(site, tier):
     if not site.name.startswith(HISTORY3_PREFIX):
         return []
     ns = [12, 257] if tier == "quick" else [12, 31, 257, 1025]
+    if site.name.startswith("metrics.crps"):
+        # sizes whose weights 1/n sum to exactly 1 (outlier bins of the reliability table left undecided)
+        ns = ns + ([16, 64] if tier == "quick" else [16, 64, 128, 512])
     if not size_dependent(site):
         ns = ns[:1]
     cap = LADDER_CAP.get(site.name, (1025, 10001))[0 if tier == "quick" else 1]
@@ -556,6 +559,15 @@ def build_catalogue():
     add("metrics.pit", obs_ens, lambda a: metrics.pit(a["obs"], a["ens"]))
     add("metrics.pit[random]", obs_ens, lambda a: metrics.pit(a["obs"], a["ens"], random=True))
     add("metrics.crps", obs_ens, lambda a: metrics.crps(a["obs"], a["ens"]))
+
+    def obs_ens_out(n, s, lay):
+        # every observation outside its ensemble: below all members (even seed) / above all (odd seed);
+        # the outlier bins of the reliability table are then decided by one side only
+        e = mat(n, P, s)
+        o = e.min(axis=1) - 1.5 - (np.arange(n) % 3) if s % 2 == 0 else e.max(axis=1) + 1.5 + (np.arange(n) % 3)
+        return {"obs": A(o), "ens": A(e)}
+
+    add("metrics.crps[obs-outside-ensemble]", obs_ens_out, lambda a: metrics.crps(a["obs"], a["ens"]))
     add("metrics.anderson_darling_test", lambda n, s, lay: {"unifdata": A(unif(n, s))},
         lambda a: metrics.anderson_darling_test(a["unifdata"]))
     add("metrics.cramer_von_mises_test", lambda n, s, lay: {"data": A(unif(n, s))},
@@ -758,6 +770,8 @@ def build_catalogue():
         lambda a: with_ax(lambda ax: [t.get_text() for t in a["self"].plot_values(ax)]), layouts=GRID_LAYOUTS)
 
     # ---- Catchment methods and grid level functions
+    add(OBJ_SITE, lambda n, s, lay: {}, lambda a: None, layouts=["int64"])
+
     def catch_idx(n, s, lay):
         return {"self": Fixed(make_catchment("int64", False)), "idx": A((np.arange(n) * 5 + s) % 36, "i")}
 
@@ -1021,6 +1035,8 @@ def compare_snapshots(ctx, site, case, before, watched, icall, tag, reported, wh
 
 
 def run_case(ctx, site, case):
+    if case.get("history") == "object":
+        return run_case_object(ctx, site, case)
     if case.get("history") == 3:
         return run_case3(ctx, site, case)
     pr = prepare(site, case)
@@ -1033,6 +1049,7 @@ def run_case(ctx, site, case):
     results = []
     mutated_reported = set()
     for icall in (1, 2):
+        heap_scribble(icall)
         np.random.seed(RSEED + case["seed"])
         try:
             res = ("ok", site.call(args))
@@ -1099,7 +1116,11 @@ def run_case3(ctx, site, case):
         ctx.count("history3.B-equals-A(no-seed-dependent-argument)")
     repA, repB = set(), set()
 
+    ncalls = [0]
+
     def call(args):
+        ncalls[0] += 1
+        heap_scribble(ncalls[0])
         np.random.seed(RSEED + case["seed"])
         try:
             return ("ok", site.call(args))
@@ -1172,8 +1193,220 @@ def describe(s):
     return repr(d)
 
 
+# --------------------------------------------------------------------- heap scribble
+# Between the calls of a history the free lists of the C allocator are refilled with blocks holding a
+# recognisable byte pattern (another pattern before each call).  A kernel that reads a malloc'ed or
+# np.empty'ed cell it never wrote then returns another value at each call, so that "same arguments, same
+# result" is decided instead of depending on what the previous call happened to leave on the heap.
+SCRIBBLE_BYTES = [0x5A, 0xA5, 0x3C]      # as float64: 1.2e127, -1.8e-127, 1.5e-18 (finite, distinct, not NaN)
+SCRIBBLE_SIZES = [sz for sz in range(16, 1041, 16) for _ in range(9)] + \
+                 [sz for k in range(11, 17) for sz in (2 ** k, 2 ** k + 2 ** (k - 1))] * 2 + [120000]
+_LIBC = None
+
+
+def heap_scribble(icall):
+    global _LIBC
+    if _LIBC is None:
+        import ctypes
+        lib = ctypes.CDLL(None)
+        lib.malloc.restype = ctypes.c_void_p
+        lib.malloc.argtypes = [ctypes.c_size_t]
+        lib.memset.restype = ctypes.c_void_p
+        lib.memset.argtypes = [ctypes.c_void_p, ctypes.c_int, ctypes.c_size_t]
+        lib.free.restype = None
+        lib.free.argtypes = [ctypes.c_void_p]
+        _LIBC = lib
+    lib = _LIBC
+    byte = SCRIBBLE_BYTES[(icall - 1) % len(SCRIBBLE_BYTES)]
+    blocks = []
+    for sz in SCRIBBLE_SIZES:
+        ptr = lib.malloc(sz)
+        if ptr:
+            lib.memset(ptr, byte, sz)
+            blocks.append(ptr)
+    for ptr in blocks:
+        lib.free(ptr)
+
+
+# --------------------------------------------------------------------- method histories of one Catchment
+# explicit enumeration of every sequence of Catchment operations up to a depth, on a fresh catchment each;
+# after every operation all observations (queries with fixed arguments) are taken again and must equal the
+# ones taken right after delineate_area: no operation may change what another returns for the same arguments.
+OBJ_SITE = "grid.Catchment[method-history]"
+OBJ_FLOWDIRS = {
+    "nohole": (FLOWDIR, 27, None),
+    "inlets": (FLOWDIR, 27, [8]),
+    # ring of cells around a sink: the filled area has one more cell than the area
+    "ring": ([[0, 0, 0, 0, 0, 0],
+              [0, 1, 1, 4, 0, 0],
+              [0, 4, 0, 4, 0, 0],
+              [0, 1, 1, 4, 0, 0],
+              [0, 0, 0, 0, 0, 0],
+              [0, 0, 0, 0, 0, 0]], 19, None),
+}
+OBJ_OPS = ["boundary", "boundary_mask", "fpl", "intersect", "intersect_filled", "extent", "to_dict", "clone",
+           "add", "sub", "voronoi", "area_again", "upstream", "downstream"]
+OBJ_OPS_THOROUGH = OBJ_OPS + ["plot_area", "plot_boundary", "from_dict"]
+
+
+def obj_depth(tier):
+    return 2 if tier == "quick" else 3
+
+
+def obj_cases(tier, seed):
+    import itertools
+    ops = OBJ_OPS if tier == "quick" else OBJ_OPS_THOROUGH
+    for fd in sorted(OBJ_FLOWDIRS):
+        for d in range(1, obj_depth(tier) + 1):
+            for seq in itertools.product(ops, repeat=d):
+                if d > 1 and not any(o in ("boundary", "boundary_mask", "fpl", "area_again", "add", "sub", "clone", "from_dict") for o in seq[:-1]):
+                    # a sequence of queries only: its prefixes are covered by the shorter sequences and the
+                    # observations taken after every step already call every query
+                    continue
+                yield {"site": OBJ_SITE, "layout": "int64", "n": 0, "seed": seed, "nan": False,
+                       "history": "object", "fd": fd, "ops": list(seq)}
+
+
+def obj_build(fd):
+    from hydrodiy.gis.grid import Grid, Catchment
+    codes, outlet, inlets = OBJ_FLOWDIRS[fd]
+    g = Grid("fd", 6, 6, dtype=np.int64, nodata=-1, cellsize=0.5, xllcorner=10., yllcorner=-3.)
+    g.data[...] = np.array(codes)
+    ca = Catchment("ca", g)
+    ca.delineate_area(outlet, inlets, nval=200)
+    other = Catchment("other", g)
+    other.delineate_area(20 if fd != "ring" else 9, nval=200)
+    coarse = make_valgrid("c64", 0, 3, 3, 1.0, 10., -3., "coarse")
+    return ca, other, coarse, (outlet, inlets)
+
+
+def obj_apply(op, ca, other, coarse, how):
+    from hydrodiy.gis import grid as gridmod
+    if op == "boundary":
+        ca.delineate_boundary()
+    elif op == "boundary_mask":
+        m = np.zeros(36, dtype=np.int64)
+        m[ca.idxcells_area_filled] = 1
+        ca.delineate_boundary(m)
+    elif op == "fpl":
+        ca.compute_flowpathlengths()
+    elif op == "intersect":
+        ca.intersect(coarse)
+    elif op == "intersect_filled":
+        ca.intersect(coarse, filled=True)
+    elif op == "extent":
+        ca.extent()
+    elif op == "to_dict":
+        ca.to_dict()
+    elif op == "from_dict":
+        gridmod.Catchment.from_dict(ca.to_dict())
+    elif op == "clone":
+        ca.clone()
+    elif op == "add":
+        ca + other
+    elif op == "sub":
+        ca - other
+    elif op == "voronoi":
+        gridmod.voronoi(ca, np.array([[10.4, -1.2], [11.6, -0.4], [12.1, -2.2]]))
+    elif op == "area_again":
+        ca.delineate_area(how[0], how[1], nval=200)
+    elif op == "upstream":
+        ca.upstream(ca.idxcells_area)
+    elif op == "downstream":
+        ca.downstream(ca.idxcells_area)
+    elif op == "plot_area":
+        with_ax(lambda ax: ca.plot_area(ax))
+    elif op == "plot_boundary":
+        with_ax(lambda ax: ca.plot_boundary(ax))
+    else:
+        raise KeyError(op)
+
+
+def obj_observe(ca, other, coarse):
+    """every query with fixed arguments -> name -> value (copies)"""
+    obs = {}
+
+    def put(name, fun):
+        try:
+            obs[name] = ("ok", copy.deepcopy(fun()))
+        except Exception as e:
+            obs[name] = ("raise", type(e).__name__)
+
+    put("idxcells_area", lambda: ca.idxcells_area)
+    put("idxcells_area_filled", lambda: ca.idxcells_area_filled)
+    put("idxcell_outlet", lambda: ca.idxcell_outlet)
+    put("idxinlets", lambda: ca.idxinlets)
+    put("extent", lambda: ca.extent())
+
+    def inter(filled):
+        g, i, w = ca.intersect(coarse, filled=filled)
+        return [g.data, g.xllcorner, g.yllcorner, i, w]
+    put("intersect(grid)", lambda: inter(False))
+    put("intersect(grid, filled=True)", lambda: inter(True))
+    put("upstream(area)", lambda: ca.upstream(ca.idxcells_area))
+    put("downstream(area)", lambda: ca.downstream(ca.idxcells_area))
+    put("other.idxcells_area", lambda: other.idxcells_area)
+    put("coarse.data", lambda: coarse.data)
+    put("flowdir.data", lambda: ca.flowdir.data)
+    # derived state that exists only after the operation that computes it: compared from its first appearance
+    put("?idxcells_boundary", lambda: ca.idxcells_boundary)
+    put("?xycells_boundary", lambda: ca.xycells_boundary)
+    put("?flowpathlengths", lambda: ca.flowpathlengths)
+    return obs
+
+
+def run_case_object(ctx, site, case):
+    ca, other, coarse, how = obj_build(case["fd"])
+    ref = obj_observe(ca, other, coarse)
+    # the queries themselves must not have changed anything: observe twice
+    hist = ["delineate_area"]
+    again = obj_observe(ca, other, coarse)
+    steps = [("observe", again)]
+    ctx.states += 1
+    failed = False
+    for k, op in enumerate(case["ops"]):
+        heap_scribble(k + 1)
+        try:
+            obj_apply(op, ca, other, coarse, how)
+            hist.append(op)
+        except Exception as e:
+            hist.append("%s!%s" % (op, type(e).__name__))
+            ctx.count("object-history.op-raised.%s.%s" % (op, type(e).__name__))
+        ctx.transitions += 1
+        ctx.states += 1
+        steps.append((op, obj_observe(ca, other, coarse)))
+    for op, cur in steps:
+        for name, val in cur.items():
+            r = ref[name]
+            if name.startswith("?") and (r[0] == "raise" or r[1] is None) and not (val[0] == "raise" or val[1] is None):
+                ref[name] = val       # first appearance of the derived state
+                continue
+            if name.startswith("?") and op in ("area_again",) and (val[0] == "raise" or val[1] is None):
+                # delineating the area again may reset the derived state
+                ref[name] = val
+                continue
+            st = "same"
+            if r[0] != val[0] or (r[0] == "raise" and r[1] != val[1]):
+                st, where = "diff", "outcome %s -> %s" % (r[:2] if r[0] == "raise" else "returned", val[:2] if val[0] == "raise" else "returned")
+            elif r[0] == "ok":
+                st, where = requal(r[1], val[1], path=name)
+            if st == "diff" and not failed:
+                failed = True
+                ctx.violation("%s:%s-changed-by:%s" % (site.name, name.lstrip("?"), op), case,
+                              "Catchment (%s flow directions) after %s: %s no longer returns what it returned before "
+                              "'%s' (at %s)" % (case["fd"], " ; ".join(hist[:1] + case["ops"]), name.lstrip("?"), op, where))
+    ctx.traces += 1
+    ctx.case(True, outcome=("obj", case["fd"], tuple(sorted((k, outcome_hash(v[1]) if v[0] == "ok" else v[1]) for k, v in ref.items()))))
+    ctx.count("object-history.cases")
+    ctx.count("object-history.depth=%d" % len(case["ops"]))
+
+
 # --------------------------------------------------------------------- units
 def cases_of(site, tier, seed):
+    if site.name == OBJ_SITE:
+        for c in obj_cases(tier, seed):
+            yield c
+        return
     lays = LAYOUTS if tier == "quick" else LAYOUTS_THOROUGH
     if site.layouts is not None:
         lays = [l for l in lays if l in site.layouts]
